@@ -69,6 +69,14 @@ def _scramble(x, depth=2):
                 _scramble(e, depth - 1)
         elif isinstance(x, np.ndarray) and x.dtype != object and x.flags.writeable:
             x[...] = 0
+        elif type(x).__name__ == "Circuit" and hasattr(x, "add_gate"):
+            # a caller may extend the circuit it was handed (e.g. build another determinant on top of a reference circuit)
+            from tangelo.linq import Gate
+            x.add_gate(Gate("H", 0))
+            x.add_gate(Gate("X", 0))
+        elif hasattr(x, "terms") and isinstance(getattr(x, "terms"), dict):
+            # ... or update the operator it was handed in place
+            x.terms[()] = x.terms.get((), 0) + 1.2345
     except Exception:
         pass
 
@@ -146,7 +154,7 @@ class Harness:
 
     # calling the real code
     def call(self, relfile, qualname, *args, **kwargs):
-        if not self.symbolic and (relfile, qualname) in REPEATABLE and not getattr(self, "_in_repeat", False):
+        if (relfile, qualname) in REPEATABLE and not getattr(self, "_in_repeat", False) and (not self.symbolic or self._plain_call(args, kwargs)):
             self._repeat_probe(relfile, qualname, args, kwargs)
         try:
             return self.I.call(relfile, qualname, *args, **kwargs)
@@ -155,6 +163,16 @@ class Harness:
         except Exception as e:
             e._from_target = True     # raised by the code under contract (not by the harness itself)
             raise
+
+    def _plain_call(self, args, kwargs):
+        """symbolic run, but this call is entirely concrete: no symbolic scalar, no ghost object, no callee stub installed (modular contracts are not probed)"""
+        from .interp import GhostIterable, SymVec
+        if getattr(self.I, "stubs", None) or getattr(self.I, "range_protocols", None):
+            return False
+        vals = list(args) + list(kwargs.values())
+        if has_sym(vals, 3):
+            return False
+        return not any(isinstance(v, (GhostIterable, SymVec, GhostList, GhostSet, GhostDict, Opaque)) for v in vals)
 
     def _repeat_probe(self, relfile, qualname, args, kwargs):
         """bounded native layer, for functions that are specified as functions of their arguments (REPEATABLE): call once, snapshot the result, SCRAMBLE the containers the
